@@ -66,21 +66,22 @@ def replay_emit(chk, e, D, M, kind, real_t, h):
 
 def adjoint_on_code(chk, D, kind, real_t, h, rng, N, ncomp, clustered):
     sfrac = (0.5, 0.0 if real_t is np.float64 else -2.25)[int(rng.integers(0, 2))]       # grid origin (see replay_emit)
+    W = 2                     # half-width of the support window (the only width the kernels accept)
     gshape = [(9, 17), (16, 10)][int(rng.integers(0, 2))] if D == 2 else [(8, 11, 17), (16, 9, 8), (9, 15, 10)][int(rng.integers(0, 3))]
     ext = np.array([gshape[D - 1 - k] for k in range(D)])       # extent per PHYSICAL axis (x first)
-    c = interp.comm(D, h, N, real_t, kind, ncomp, sfrac)
+    c = interp.comm(D, h, N, real_t, kind, ncomp, sfrac, W)
     if clustered:
-        base = np.array([rng.integers(2, n - 3) for n in ext])
+        base = np.array([rng.integers(W, n - W - 1) for n in ext])
         # half of the clustered cases sit at the far end of every axis
         if rng.random() < 0.5:
-            base = ext - 4
+            base = ext - W - 2
         pos = ((base[:, None] + rng.random((D, N))) * h + sfrac * h).astype(real_t)
         pos[:, -1] = pos[:, 0]  # a duplicated marker
     else:
-        cells = np.stack([rng.integers(2, n - 3, N) for n in ext])
-        cells[:, 0] = ext - 4                                     # one marker as far along every axis as admissible
+        cells = np.stack([rng.integers(W, n - W - 1, N) for n in ext])
+        cells[:, 0] = ext - W - 2                                 # one marker as far along every axis as admissible
         pos = ((cells + rng.random((D, N))) * h + sfrac * h).astype(real_t)
-    idx, w = interp.support_and_weights(c, pos, D, real_t)
+    idx, w = interp.support_and_weights(c, pos, D, real_t, W)
     shape = ((ncomp,) if ncomp > 1 else ()) + tuple(gshape)
     u = rng.integers(-4, 5, shape).astype(real_t)
     F = rng.integers(-4, 5, ((ncomp, N) if ncomp > 1 else (N,))).astype(real_t)
